@@ -1,7 +1,7 @@
 (* C05 — every decoded value re-encodes at every protocol and decodes back to itself. *)
 From Coq Require Import List ZArith NArith Bool.
 From Coq.Strings Require Import Byte.
-From OgRek Require Import Base Value Reader Decoder DecoderFacts Encoder EncoderFacts Norm TypingFacts RoundTrip.
+From OgRek Require Import Base Value Reader Decoder DecoderFacts Encoder EncoderFacts Norm NormMaps TypingFacts RoundTrip RoundTripMaps.
 
 (* STATUS.  C05_redecode_partial is the property for every result without heap objects (maps,
    Dicts) and PersistentLoad objects:  whatever bytes inp Decode succeeded on - from any decoder
@@ -25,6 +25,27 @@ Theorem C05_redecode_partial : forall cfg c st0 inp x st1 rest0 t st rest,
                    erase x' = erase x.
 Proof. exact redecode. Qed.
 Print Assumptions C05_redecode_partial.
+
+(* Results that hold maps / Dicts: what is proved is the second half of the chain.  Whatever value r
+   the encoder is handed - in particular the reflection of a decoded result, its maps iterated in
+   whatever order the Go runtime chooses - if it has a normal form (NormMaps.norm2), Encode succeeds
+   and Decode returns that normal form, from any decoder state (C03_round_trip_maps).  Not proved:
+   that the normal form of the reflection of a decoded result x is the content of x up to the order
+   of map entries (it needs: stored keys are pairwise unequal, so re-assigning them in any order
+   reproduces the same entries) - decided by the run: decode -> encode at 6 protocols -> decode on
+   the implementation, dumps with sorted entries compared. *)
+Theorem C05_reencode_with_maps : forall c pd v cvl st rest,
+  (0 <= e_proto c <= 5)%Z -> norm2 c pd TRef v = Some cvl -> heap_bound st ->
+  snd (run_w (encode c v) None) = EOk /\
+  exists x st',
+    decode (dcfg_of c pd) st (output (encode c v) ++ rest) = ((Ok x, st'), rest) /\
+    content (d_heap st') x cvl.
+Proof.
+  intros c pd v cvl st rest Hp Hn Hb.
+  destruct (encode_decode_maps c pd None TRef v cvl st rest (fun _ => eq_refl) Hp Hn Hb) as [A [x [st' [D [C _]]]]].
+  split; [exact A|]. exists x, st'. split; [exact D|exact C].
+Qed.
+Print Assumptions C05_reencode_with_maps.
 
 Theorem C05_partial_totality :
   (forall cfg st inp, fst (fst (decode cfg st inp)) <> Panic /\ fst (fst (decode cfg st inp)) <> OutOfFuel)
